@@ -6,7 +6,7 @@ from .. import gen, impl, oracle, ser, stream
 
 ID = "C04"
 LEVEL = "proof"
-PROPS_MODULE = "SymmModel.Props.C04All13"
+PROPS_MODULE = "SymmModel.Props.C04All14"
 THEOREMS = [
     "SymmModel.C04.permuted_compose",
     "SymmModel.C04.compose_isPerm",
@@ -159,9 +159,11 @@ THEOREMS = [
     "SymmModel.C04.two_step_values_at_renamed",
     "SymmModel.C04.two_step_values_abelian_partial",
     "SymmModel.C04.two_step_sectors_abelian_partial",
-    "SymmModel.C04.two_step_abelian_sum"
+    "SymmModel.C04.two_step_abelian_sum",
+    "SymmModel.C04.two_step_values_abelian_sorted_partial",
+    "SymmModel.C04.einsum_form_sorted"
 ]
-LEAN_FILES = ["SymmModel.Props.C04", "SymmModel.Proofs.Oddpos", "SymmModel.Proofs.Koszul", "SymmModel.Props.C04b", "SymmModel.Props.C04All", "SymmModel.Proofs.Routes", "SymmModel.Proofs.Routes2", "SymmModel.Proofs.Routes3", "SymmModel.Proofs.Routes4", "SymmModel.Props.C04c", "SymmModel.Props.C04All2", "SymmModel.Proofs.AssocWeak", "SymmModel.Proofs.AssocGeom", "SymmModel.Proofs.AssocSum", "SymmModel.Proofs.AssocFrame", "SymmModel.Proofs.AssocLeft", "SymmModel.Proofs.AssocRight", "SymmModel.Proofs.AssocIdx", "SymmModel.Proofs.AssocMain", "SymmModel.Props.C04d", "SymmModel.Props.C04All3", "SymmModel.Proofs.Assoc2Geom", "SymmModel.Proofs.Assoc2Sum", "SymmModel.Proofs.Assoc2Left", "SymmModel.Proofs.Assoc2Right", "SymmModel.Proofs.Assoc2Main", "SymmModel.Props.C06c", "SymmModel.Props.C04All4", "SymmModel.Props.C04e", "SymmModel.Props.C04All5", "SymmModel.Proofs.Assoc3Valid", "SymmModel.Proofs.Assoc3Frame", "SymmModel.Proofs.Assoc3Left", "SymmModel.Proofs.Assoc3Right", "SymmModel.Proofs.Assoc3Main", "SymmModel.Proofs.Assoc3Eqv", "SymmModel.Proofs.Assoc3Chain", "SymmModel.Proofs.Assoc3Seg", "SymmModel.Props.C04f", "SymmModel.Props.C04All6", "SymmModel.Proofs.Assoc4Seg", "SymmModel.Proofs.Assoc4Tree", "SymmModel.Proofs.Assoc4Swap", "SymmModel.Props.C06d", "SymmModel.Props.C04All7", "SymmModel.Props.C06e", "SymmModel.Props.C04All8", "SymmModel.Props.C04g", "SymmModel.Props.C04All9", "SymmModel.Proofs.Assoc5Pre", "SymmModel.Proofs.Assoc5Swap", "SymmModel.Proofs.Assoc5Tree", "SymmModel.Proofs.Assoc5Labels", "SymmModel.Proofs.Assoc5Two", "SymmModel.Props.C04h", "SymmModel.Proofs.Net4Relist", "SymmModel.Proofs.Net4K4", "SymmModel.Proofs.Net4Flag", "SymmModel.Proofs.Net4Trans", "SymmModel.Proofs.Net4Pre", "SymmModel.Proofs.Net4Exch", "SymmModel.Proofs.Net4Star", "SymmModel.Proofs.Net4Moves", "SymmModel.Proofs.Net4Orders", "SymmModel.Props.C04i", "SymmModel.Proofs.Net4M1", "SymmModel.Proofs.Net4M2", "SymmModel.Proofs.Net4M3", "SymmModel.Proofs.Net4M4", "SymmModel.Proofs.Net4M5", "SymmModel.Proofs.Net4M6", "SymmModel.Proofs.Net4M7", "SymmModel.Proofs.Net4M8", "SymmModel.Proofs.Net4M9", "SymmModel.Proofs.Net4M10", "SymmModel.Props.C04j", "SymmModel.Props.C04All12", "SymmModel.Proofs.TwoStepDefs", "SymmModel.Proofs.TwoStepSum", "SymmModel.Proofs.TwoStepGeom", "SymmModel.Proofs.TwoStepOrder", "SymmModel.Proofs.TwoStepOrder2", "SymmModel.Proofs.TwoStepSign", "SymmModel.Proofs.TwoStepInter", "SymmModel.Proofs.TwoStepSec", "SymmModel.Proofs.TwoStepMain", "SymmModel.Proofs.TwoStepFinal", "SymmModel.Proofs.TwoStepFrame", "SymmModel.Proofs.TwoStepAll", "SymmModel.Props.C04k", "SymmModel.Proofs.TwoStepM1", "SymmModel.Proofs.TwoStepM2", "SymmModel.Proofs.TwoStepM3"]
+LEAN_FILES = ["SymmModel.Props.C04", "SymmModel.Proofs.Oddpos", "SymmModel.Proofs.Koszul", "SymmModel.Props.C04b", "SymmModel.Props.C04All", "SymmModel.Proofs.Routes", "SymmModel.Proofs.Routes2", "SymmModel.Proofs.Routes3", "SymmModel.Proofs.Routes4", "SymmModel.Props.C04c", "SymmModel.Props.C04All2", "SymmModel.Proofs.AssocWeak", "SymmModel.Proofs.AssocGeom", "SymmModel.Proofs.AssocSum", "SymmModel.Proofs.AssocFrame", "SymmModel.Proofs.AssocLeft", "SymmModel.Proofs.AssocRight", "SymmModel.Proofs.AssocIdx", "SymmModel.Proofs.AssocMain", "SymmModel.Props.C04d", "SymmModel.Props.C04All3", "SymmModel.Proofs.Assoc2Geom", "SymmModel.Proofs.Assoc2Sum", "SymmModel.Proofs.Assoc2Left", "SymmModel.Proofs.Assoc2Right", "SymmModel.Proofs.Assoc2Main", "SymmModel.Props.C06c", "SymmModel.Props.C04All4", "SymmModel.Props.C04e", "SymmModel.Props.C04All5", "SymmModel.Proofs.Assoc3Valid", "SymmModel.Proofs.Assoc3Frame", "SymmModel.Proofs.Assoc3Left", "SymmModel.Proofs.Assoc3Right", "SymmModel.Proofs.Assoc3Main", "SymmModel.Proofs.Assoc3Eqv", "SymmModel.Proofs.Assoc3Chain", "SymmModel.Proofs.Assoc3Seg", "SymmModel.Props.C04f", "SymmModel.Props.C04All6", "SymmModel.Proofs.Assoc4Seg", "SymmModel.Proofs.Assoc4Tree", "SymmModel.Proofs.Assoc4Swap", "SymmModel.Props.C06d", "SymmModel.Props.C04All7", "SymmModel.Props.C06e", "SymmModel.Props.C04All8", "SymmModel.Props.C04g", "SymmModel.Props.C04All9", "SymmModel.Proofs.Assoc5Pre", "SymmModel.Proofs.Assoc5Swap", "SymmModel.Proofs.Assoc5Tree", "SymmModel.Proofs.Assoc5Labels", "SymmModel.Proofs.Assoc5Two", "SymmModel.Props.C04h", "SymmModel.Proofs.Net4Relist", "SymmModel.Proofs.Net4K4", "SymmModel.Proofs.Net4Flag", "SymmModel.Proofs.Net4Trans", "SymmModel.Proofs.Net4Pre", "SymmModel.Proofs.Net4Exch", "SymmModel.Proofs.Net4Star", "SymmModel.Proofs.Net4Moves", "SymmModel.Proofs.Net4Orders", "SymmModel.Props.C04i", "SymmModel.Proofs.Net4M1", "SymmModel.Proofs.Net4M2", "SymmModel.Proofs.Net4M3", "SymmModel.Proofs.Net4M4", "SymmModel.Proofs.Net4M5", "SymmModel.Proofs.Net4M6", "SymmModel.Proofs.Net4M7", "SymmModel.Proofs.Net4M8", "SymmModel.Proofs.Net4M9", "SymmModel.Proofs.Net4M10", "SymmModel.Props.C04j", "SymmModel.Props.C04All12", "SymmModel.Proofs.TwoStepDefs", "SymmModel.Proofs.TwoStepSum", "SymmModel.Proofs.TwoStepGeom", "SymmModel.Proofs.TwoStepOrder", "SymmModel.Proofs.TwoStepOrder2", "SymmModel.Proofs.TwoStepSign", "SymmModel.Proofs.TwoStepInter", "SymmModel.Proofs.TwoStepSec", "SymmModel.Proofs.TwoStepMain", "SymmModel.Proofs.TwoStepFinal", "SymmModel.Proofs.TwoStepFrame", "SymmModel.Proofs.TwoStepAll", "SymmModel.Props.C04k", "SymmModel.Proofs.TwoStepM1", "SymmModel.Proofs.TwoStepM2", "SymmModel.Proofs.TwoStepM3", "SymmModel.Props.C04l", "SymmModel.Proofs.TwoStepN1", "SymmModel.Proofs.TwoStepN2"]
 PLANNED = ["label routes for fully paired label lists with more than four labels per tensor (<= 4 proved symbolically over every interleaving pattern", "it cannot follow from sortedness and distinctness alone: conjugate_pairs_labels_route_dependent)", "networks of more than four tensors with arbitrary graphs (chains of any length and all four-tensor graphs proved, every mode)", "two-step contraction with the FIRST call in fused/auto mode and for non-monotone label renamings (one-step call in any mode and increasing renamings proved)", "the abelian two-step form identified with einsumA (proved as an explicit trace sum: two_step_values_abelian_partial)"]
 RULE = ("random networks of 2-4 fermionic tensors (chains, triangles, stars; with and without dangling legs), all "
         "symmetries, random bond orientations, every mix of even/odd charges with distinct labels, sparse, pending "
